@@ -9,8 +9,8 @@ import CanvasGen.GaussLegendreC09
   length function (theorems: additivity);
 * `Float` instances of the segment lengths, transcribed from the source: `math.Hypot` (the amd64
   routine: `max*sqrt(1+(min/max)^2)`), `quadraticBezierLength` (closed form, after e51fcfc/da104aa),
-  `cubicBezierLength` (split at the inflection points, 7-point Gauss–Legendre of the speed over two half
-  intervals per piece, 8606e8f), `ellipseLength` (5-point Gauss–Legendre of the speed over pieces of at
+  `cubicBezierLength` (split at the inflection points, 7-point Gauss–Legendre of the speed over four quarter
+  intervals per piece, 0869084), `ellipseLength` (5-point Gauss–Legendre of the speed over pieces of at
   most 90 degrees, 0b071bc).  The quadrature rules are
   evaluated from the tables extracted from util.go on every check (`GenC09.gl5F`, `gl7F`) with the
   grouping of equal weights the source uses.
@@ -91,10 +91,10 @@ def quadLenF (p0 p1 p2 : Pt Float) : Float :=
     let length := if 0.0 < num && 0.0 < den then length + (4.0 * C * A - B * B) * Float.log (num / den) else length
     length / (4.0 * A32)
 
-/-- 7-point rule of the speed of one cubic over the two half intervals (8606e8f) -/
-def cubeSpeedGL (p0 p1 p2 p3 : Pt Float) : Float :=
+/-- `length += gaussLegendre7(speed, t, t+0.25)` for t = 0, 0.25, 0.5, 0.75 (0869084) -/
+def cubeSpeedGL (acc : Float) (p0 p1 p2 p3 : Pt Float) : Float :=
   let speed := fun t => ptLen (GenF.cubicBezierDeriv p0 p1 p2 p3 t)
-  glGrouped GenC09.gl7F speed 0.0 0.5 + glGrouped GenC09.gl7F speed 0.5 1.0
+  [0.0, 0.25, 0.5, 0.75].foldl (fun (a : Float) t => a + glGrouped GenC09.gl7F speed t (t + 0.25)) acc
 
 /-- `cubicBezierLength` for the inflection parameters `t1, t2` (NaN when absent) -/
 def cubeLenF (p0 p1 p2 p3 : Pt Float) (t1 t2 : Float) : Float :=
@@ -102,14 +102,14 @@ def cubeLenF (p0 p1 p2 p3 : Pt Float) (t1 t2 : Float) : Float :=
     let s := GenF.cubicBezierSplit p0 p1 p2 p3 t1
     let t2' := (t2 - t1) / (1.0 - t1)
     let s2 := GenF.cubicBezierSplit s.2.2.2.2.1 s.2.2.2.2.2.1 s.2.2.2.2.2.2.1 s.2.2.2.2.2.2.2 t2'
-    0.0 + cubeSpeedGL s.1 s.2.1 s.2.2.1 s.2.2.2.1
-      + cubeSpeedGL s2.1 s2.2.1 s2.2.2.1 s2.2.2.2.1
-      + cubeSpeedGL s2.2.2.2.2.1 s2.2.2.2.2.2.1 s2.2.2.2.2.2.2.1 s2.2.2.2.2.2.2.2
+    let l := cubeSpeedGL 0.0 s.1 s.2.1 s.2.2.1 s.2.2.2.1
+    let l := cubeSpeedGL l s2.1 s2.2.1 s2.2.2.1 s2.2.2.2.1
+    cubeSpeedGL l s2.2.2.2.2.1 s2.2.2.2.2.2.1 s2.2.2.2.2.2.2.1 s2.2.2.2.2.2.2.2
   else if t1 > 0.0 && t1 < 1.0 then
     let s := GenF.cubicBezierSplit p0 p1 p2 p3 t1
-    0.0 + cubeSpeedGL s.1 s.2.1 s.2.2.1 s.2.2.2.1
-      + cubeSpeedGL s.2.2.2.2.1 s.2.2.2.2.2.1 s.2.2.2.2.2.2.1 s.2.2.2.2.2.2.2
-  else 0.0 + cubeSpeedGL p0 p1 p2 p3
+    let l := cubeSpeedGL 0.0 s.1 s.2.1 s.2.2.1 s.2.2.2.1
+    cubeSpeedGL l s.2.2.2.2.1 s.2.2.2.2.2.1 s.2.2.2.2.2.2.1 s.2.2.2.2.2.2.2
+  else cubeSpeedGL 0.0 p0 p1 p2 p3
 
 /-- `ellipseDeriv(rx, ry, 0, true, theta).Length()` -/
 def ellipseSpeed (rx ry theta : Float) : Float :=
